@@ -237,13 +237,10 @@ def run(ctx):
             'harness wrapper around TestStructure.Run (records after return, error path included)')
   ctx.assume('p-values 2^-e make the Fisher rule exact integer arithmetic; ties Sum = k*R reached by unequal exponents '
              '(two different float summations in the code) admit both PASSED and UNDECIDED')
+  from pv import c13_generators
+  handle = c13_generators.start(ctx)          # real generators run in a background pool meanwhile
   rule_part(ctx)
-  try:
-    from pv import c13_generators
-  except ImportError:
-    ctx.skip('generator part (good / weak generators) not built yet')
-    return
-  c13_generators.run(ctx)
+  c13_generators.finish(ctx, handle)
 
 
 def selftest(ctx):
